@@ -585,6 +585,16 @@ def rejections(repo, res):
     sym = it2.construct("Symbol", ["t", "DataType.REAL"], {})
     expect(f"{f.key}:rejects:non-symbol array bases", "ArrayAccess", lambda: it2.construct("ArrayAccess", [sym, [0]], {}),
            lambda: it2.construct("ArrayAccess", [it2.construct("LiteralFloat", [1.5], {}), [0]], {}), "an array base that is neither a symbol nor an array declaration", lm.line(f.node))
+    # 2b. Bessel functions of non-integer order: <math.h>'s jn / yn take an `int` order, a real order would silently be truncated (J_0 for J_0.5)
+    f = lm.func("_math_function")
+    res.functions.add(f.key)
+    it2b = Interp(repo, load_classes(repo), primary=LN)
+    xs = it2b.construct("Symbol", ["x", "DataType.REAL"], {})
+    for hn in ("bessel_j", "bessel_y"):
+        expect(f"{f.key}:rejects:{hn} of non-integer order", "_math_function",
+               lambda hn=hn: it2b.call_f(f, [Node("UflOperator", _ufl_handler_name_=hn), it2b.construct("LiteralInt", [2], {}), xs]),
+               lambda hn=hn: it2b.call_f(f, [Node("UflOperator", _ufl_handler_name_=hn), it2b.construct("LiteralFloat", [0.5], {}), xs]),
+               f"a {hn} of order 0.5 (C's jn / yn take an int order: the kernel would compute order 0)", lm.line(f.node))
     # 3. integral generator blocks
     from .genblocks import IG, _World
     igm = repo.mod(IG)
